@@ -121,7 +121,15 @@ func c10(r *core.Run) {
 		}
 		switch x := v.(type) {
 		case *ssa.Parameter:
-			return x == prm
+			if x == prm {
+				return true
+			}
+			for _, a := range paramArgs(p, x, 0) {
+				if a != v && derivesFrom(a, prm, d+1) {
+					return true
+				}
+			}
+			return false
 		case *ssa.Phi:
 			for _, e := range x.Edges {
 				if e != v && derivesFrom(e, prm, d+1) {
@@ -131,6 +139,15 @@ func c10(r *core.Run) {
 		case *ssa.Extract:
 			if c, ok := x.Tuple.(*ssa.Call); ok && c.Common().IsInvoke() && c.Common().Method.Name() == "Transform" {
 				for _, a := range c.Common().Args {
+					if derivesFrom(a, prm, d+1) {
+						return true
+					}
+				}
+			}
+		case *ssa.Call:
+			// a module helper that builds the representation from its argument
+			if cal := x.Common().StaticCallee(); cal != nil && len(cal.Blocks) > 0 && cal.Pkg == chg.Pkg {
+				for _, a := range x.Common().Args {
 					if derivesFrom(a, prm, d+1) {
 						return true
 					}
@@ -190,7 +207,15 @@ func c10(r *core.Run) {
 			}
 			seen[v] = true
 			for i, e := range phi.Edges {
-				if isDefLoad(e) {
+				mayBeDef := isDefLoad(e)
+				if _, isPhi := e.(*ssa.Phi); !isPhi && !mayBeDef {
+					for _, lf := range valueLeaves(e, nil, 0) {
+						if isDefLoad(lf.V) {
+							mayBeDef = true
+						}
+					}
+				}
+				if mayBeDef {
 					pred := phi.Block().Preds[i]
 					pol := "any"
 					for _, ed := range dominatingEdges(pred.Instrs[len(pred.Instrs)-1]) {
@@ -209,10 +234,12 @@ func c10(r *core.Run) {
 	}
 	// does the get handler serve the default at all?
 	getDefault := false
-	for _, b := range get.Blocks {
-		for _, in := range b.Instrs {
-			if u, ok := in.(*ssa.UnOp); ok && isDefLoad(u) {
-				getDefault = true
+	for _, h := range p.Helpers(get) {
+		for _, b := range h.Blocks {
+			for _, in := range b.Instrs {
+				if u, ok := in.(*ssa.UnOp); ok && isDefLoad(u) {
+					getDefault = true
+				}
 			}
 		}
 	}
@@ -236,12 +263,12 @@ func c10(r *core.Run) {
 
 	// ---- T2 ----------------------------------------------------------------
 	hasTransform := func(fn *ssa.Function, prm *ssa.Parameter) (bool, ssa.Instruction) {
-		for _, c := range core.Calls(fn) {
+		for _, c := range helperCalls(p, fn) {
 			if !c.Common().IsInvoke() || c.Common().Method.Name() != "Transform" {
 				continue
 			}
 			underSet := false
-			for _, ed := range dominatingEdges(c) {
+			for _, ed := range ctxEdges(p, c, fn, 0) {
 				if s, ok := isTransCond(ed); ok && s == "transformer-set" {
 					underSet = true
 				}
@@ -287,14 +314,23 @@ func c10(r *core.Run) {
 			return false
 		}
 		for _, fn := range []*ssa.Function{get, chg} {
-			for _, c := range core.Calls(fn) {
+			for _, c := range helperCalls(p, fn) {
 				if !c.Common().IsInvoke() || c.Common().Method.Name() != "Transform" {
 					continue
 				}
 				bad := false
-				for _, a := range c.Common().Args {
-					if derivesFromDef(a, 0) {
-						bad = true
+				for _, a0 := range c.Common().Args {
+					for _, a := range paramArgs(p, a0, 0) {
+						if derivesFromDef(a, 0) {
+							bad = true
+						}
+						if _, isPhi := a.(*ssa.Phi); !isPhi {
+							for _, lf := range valueLeaves(a, nil, 0) {
+								if isDefLoad(lf.V) {
+									bad = true
+								}
+							}
+						}
 					}
 				}
 				r.Check(!bad, "T2", core.FuncName(fn), "default-is-not-transformed", p.InstrPos(c), "only stored values are transformed; the default is served and diffed as configured", "the configured default can be passed through Transformer.Transform here, while the get handler serves it untransformed: the change is computed against Transform(default) - or, when the transformer rejects it, the value is treated as missing and a create / delete is sent for a resource the client holds")
@@ -324,6 +360,17 @@ func c10(r *core.Run) {
 		if c.Common().IsInvoke() && c.Common().Method.Name() == "ChangeEvent" {
 			chCall = c
 			chMap = c.Common().Args[0]
+		}
+	}
+	// the map may be built by a private helper: take the helper's map and analyse the helper
+	if chMap != nil {
+		if _, isMk := chMap.(*ssa.MakeMap); !isMk {
+			for _, lf := range valueLeaves(chMap, nil, 0) {
+				if mk, ok := lf.V.(*ssa.MakeMap); ok {
+					chMap = mk
+					md = mk.Parent()
+				}
+			}
 		}
 	}
 	nDel, nSet := 0, 0
